@@ -40,7 +40,8 @@ func DecodeBitmap(img *bitmap.Image) (*QRCode, error) {
 	used := usedList[version]
 
 	// mask
-	binimg.Mask(binimg, used, maskList[mask])
+	// unmask into a private copy: the bitmap of the caller is left untouched.
+	binimg = new(internalbitmap.Image).Mask(binimg, used, maskList[mask])
 
 	qrCapacity := capacityTable[version][level]
 	var buf bitstream.Buffer
